@@ -36,6 +36,7 @@ CONSTANTS
   MaxRej,               \* bound on the number of rejected calls in a behaviour
   CoreVacuum,           \* TRUE: offer direct core-level graph vacuum with arbitrary cutoffs and no restarts
   Imports, Evolves,     \* TRUE: offer VImport/VImportCommit, VEvolve
+  Connections,          \* TRUE: offer VGetConnections (hydration with its documented self-repair)
   Seeded,               \* TRUE: behaviours start with index GName created and every id of Ids added
   SeedGraph,            \* TRUE (with Seeded): the seed also holds an edge history: a->b linked, soft-unlinked, linked
                         \*   again, and b->g (b has the same relation incoming and outgoing, with different peers)
@@ -648,6 +649,32 @@ VUnlink(s, t, r, inv, hard) ==
   /\ Log([op |-> "VUnlink", s |-> s, t |-> t, r |-> r, inv |-> inv, hard |-> hard, res |-> "ok"])
   /\ UNCHANGED <<snap, dev, delat, dirty>>
 
+\* VGetConnections(index, s, r): one-hop traversal + hydration.  It returns the vector records of the active
+\* targets that are live vectors of the index -- and, as documented ("SELF-REPAIR"), it soft-unlinks in the
+\* background every active target that is NOT a live vector (a deleted vector whose cascade has not reached the
+\* edge yet, or a node that never was a vector): a read that writes, journaled like any unlink.
+Hydrated(s, r) == {e.t : e \in {x \in mem.out : x.s = s /\ x.r = r /\ x.d = 0}}
+VGetConnections(s, r) ==
+  LET n == GName
+      tg == Hydrated(s, r)
+      live == {t \in tg : t \in Ids /\ Exists(n) /\ Live(mem.ix[n], t)}
+      deadT == SetToSeq(tg \ live)
+      ts == clock + 1
+      g1 == FoldLeft(LAMBDA g, t : RemoveEdge(g, s, t, r, FALSE, ts), G(mem), deadT)
+      rec == [op |-> "VGetConnections", s |-> s, r |-> r, ids |-> live] IN
+  /\ Connections
+  /\ IF tg = {}
+     THEN UNCHANGED <<mem, file, clock>> /\ Log(rec @@ [res |-> "ok"])
+     ELSE IF ~Exists(n)
+     THEN UNCHANGED <<mem, file, clock>> /\ Log(rec @@ [res |-> "err"])
+     ELSE IF deadT = <<>>
+     THEN UNCHANGED <<mem, file, clock>> /\ Log(rec @@ [res |-> "ok"])
+     ELSE /\ clock' = ts
+          /\ mem' = [mem EXCEPT !.out = g1.out, !.in = g1.in]
+          /\ Journal([j \in 1..Len(deadT) |-> CUnlink(s, deadT[j], r, Nil, FALSE, ts)])
+          /\ Log(rec @@ [res |-> "ok"])
+  /\ UNCHANGED <<snap, dev, delat, dirty>>
+
 \* Engine.RunGraphVacuum: the retention comes from the first index whose maintenance config
 \* sets one (token "mc2": 1ns), i.e. everything soft-deleted so far is pruned. Journaled (GVACUUM).
 GraphVacuum ==
@@ -747,6 +774,7 @@ Next ==
   \/ \E n \in Names, p \in Targets : VCompress(n, p)
   \/ \E s, t \in GNodes, r \in Rels, inv \in Rels \cup {Nil}, w \in Ws, p \in Ps : VLink(s, t, r, inv, w, p)
   \/ \E s, t \in GNodes, r \in Rels, inv \in Rels \cup {Nil}, hard \in BOOLEAN : VUnlink(s, t, r, inv, hard)
+  \/ \E s \in GNodes, r \in Rels : VGetConnections(s, r)
   \/ GraphVacuum
   \/ \E c \in 1..clock : GraphVacuumAt(c)
   \/ SaveSnapshot
@@ -829,6 +857,10 @@ View == <<mem, snap, file, clock, dev, delat, dirty>>
 \* further (what follows a rejection is covered by the restarts the replayer appends and by the random walks)
 LastIsRej == ops # <<>> /\ ops[Len(ops)].res = "err"
 ViewRej == <<View, IF LastIsRej THEN ops[Len(ops)] ELSE [op |-> "none"]>>
+
+\* a hydration call is kept apart from the unlink that leads to the same state (otherwise BFS would always keep the
+\* unlink history: same memory, same journal record)
+ViewConn == <<View, IF ops # <<>> /\ ops[Len(ops)].op = "VGetConnections" THEN ops[Len(ops)] ELSE [op |-> "none"]>>
 
 \* corpus channel: one JSON line per expanded state = the behaviour that reached it first
 \* plus the projection the implementation must show after it
